@@ -279,6 +279,12 @@ theorem crun_failed_load_no_trace (K : Kit) (c : CState K) (pre post : List (Op 
 
 /-! ### reads -/
 
+theorem agree_kind {K : Kit} {p c : Out K} (h : Agree p c) : c.isReadOut = p.isReadOut := by
+  cases p <;> cases c <;> first | rfl | exact h.elim | cases h
+
+theorem agree_nonread {K : Kit} {p c : Out K} (h : Agree p c) (hp : p.isReadOut = false) : c = p := by
+  cases p <;> first | exact h.symm | cases hp
+
 /-- Agreeing answer lists have the same answers to everything that is not a read. -/
 theorem agreeAll_filter {K : Kit} : âˆ€ {ps cs : List (Out K)}, AgreeAll ps cs â†’
     cs.filter (fun o => !o.isReadOut) = ps.filter (fun o => !o.isReadOut)
@@ -287,14 +293,13 @@ theorem agreeAll_filter {K : Kit} : âˆ€ {ps cs : List (Out K)}, AgreeAll ps cs â
   | _ :: _, [], h => h.elim
   | p :: ps, c :: cs, h => by
     have ih := agreeAll_filter (ps := ps) (cs := cs) h.2
-    have h1 := h.1
-    cases p <;> cases c <;>
-      first
-      | (simp only [List.filter_cons, Out.isReadOut, Bool.not_true, Bool.not_false, Bool.false_eq_true, if_false, if_true, ih]; done)
-      | (cases h1; simp only [List.filter_cons, Out.isReadOut, Bool.not_true, Bool.not_false, Bool.false_eq_true, if_false,
-          if_true, ih]; done)
-      | exact h1.elim
-      | cases h1
+    have hk := agree_kind h.1
+    cases hp : p.isReadOut with
+    | true => simp only [List.filter_cons, hk, hp, Bool.not_true, Bool.false_eq_true, if_false, ih]
+    | false =>
+      have := agree_nonread h.1 hp
+      subst this
+      simp only [List.filter_cons, hp, Bool.not_false, if_true, ih]
 
 /-- The cached machine answers a read with a read answer, anything else not. -/
 theorem cstep_out_kind (K : Kit) (P : Policy) (c : CState K) (op : Op K) : (cstep K P c op).2.isReadOut = op.isRead := by
